@@ -104,7 +104,7 @@ func kindValues(fd protoreflect.FieldDescriptor) []textVal {
 		return []textVal{tv(protoreflect.ValueOfBool(true), "true"), tv(protoreflect.ValueOfBool(false), "false")}
 	case protoreflect.StringKind:
 		var out []textVal
-		for _, s := range []string{"x", "7", "a.b-c_d~", ".", "..", "...", ".x.", "é", "Ж9", "a=b", "a+b", "", " ", "/", "&=", "%", "+", "a b", `{"a":1}`, "null", "true", "123", "a/b?c#d", "%41"} {
+		for _, s := range []string{strings.Repeat("Lg", 150), strings.Repeat("a.b-c_d~", 700), strings.Repeat("é /&=%+", 600), "x", "7", "a.b-c_d~", ".", "..", "...", ".x.", "é", "Ж9", "a=b", "a+b", "", " ", "/", "&=", "%", "+", "a b", `{"a":1}`, "null", "true", "123", "a/b?c#d", "%41"} {
 			out = append(out, tv(protoreflect.ValueOfString(s), s))
 		}
 		return out
